@@ -802,6 +802,17 @@ func (w *walker) binop(s *state, op token.Token, x, y *Term, typ types.Type) *Te
 			}
 		}
 		if r == nil {
+			// b == true is b, b == false is ¬b (switch over a bool and if are the same decision)
+			for _, pr := range [][2]*Term{{x, y}, {y, x}} {
+				if c := pr[1]; c.IsConst() && c.C.Kind() == constant.Bool {
+					r = pr[0]
+					if !constant.BoolVal(c.C) {
+						r = not(pr[0])
+					}
+				}
+			}
+		}
+		if r == nil {
 			a, b := w.renderForCompare(s, x), w.renderForCompare(s, y)
 			if a.Nil || (a.IsConst() && !b.IsConst()) || (!b.Nil && !b.IsConst() && a.String() > b.String()) {
 				a, b = b, a
@@ -1573,6 +1584,10 @@ func (w *walker) uninterpreted(s *state, fr *frame, instr ssa.CallInstruction, a
 			continue // destination whose previous content is just the initial, never-written memory of a parameter
 		}
 		cargs = append(cargs, c)
+	}
+	if name == "errors.New" && len(cargs) == 1 {
+		// errors.New(msg) and a verb-less fmt.Errorf(msg) build the same error
+		name, cargs = "fmt.Errorf", append(cargs, nilTerm)
 	}
 	if n := len(cargs); n >= 2 && Commutative[name] && cargs[n-2].String() > cargs[n-1].String() {
 		cargs[n-2], cargs[n-1] = cargs[n-1], cargs[n-2]
